@@ -163,11 +163,18 @@ def main(argv=None):
         for cls, names in NAMES.items():
             for nme in (names if args.tier == "thorough" else names[:2]):
                 items.append((old, new, cls, nme))
+    if args.tier == "thorough":
+        # names made of two hostile fragments, alone and below a hostile sub-directory
+        frags = [(c, n) for c, ns in NAMES.items() for n in ns[:2] if "/" not in n]
+        for old, new in (("/a", "/tmp/x y"), ("/a/b", "/a"), ("/ü", "/a/b")):
+            for (c1, n1), (c2, n2) in itertools.product(frags, repeat=2):
+                items.append((old, new, f"{c1}+{c2}", n1 + n2))
+                items.append((old, new, f"{c1}/{c2}", n1 + "/" + n2))
     chunks = [{"items": items[i:i + 16]} for i in range(0, len(items), 16)]
     enumr.run_enum(rep, f"checks.{PROP}", chunks, workers=args.workers)
     rep.coverage["rule"] = (
         "all ordered pairs of old/new directories from {/a, /a/b, '/tmp/x y', '/ü'} x file names from 10 hostile "
-        "classes x forms {path, file:// raw, file:// percent-encoded, path+location, Directory} x nesting through "
+        "classes (thorough: also every ordered pair of fragments concatenated and as directory/file, 3 directory pairs) x forms {path, file:// raw, file:// percent-encoded, path+location, Directory} x nesting through "
         "secondaryFiles, listing (depth 2), arrays, records; other URL schemes and non-file values; oracle: "
         "remap there-and-back == original (deep copies), remapped paths under the new directory; distinct = "
         "distinct (form, name class, old, new)")
